@@ -9,7 +9,6 @@ package c11
 
 import (
 	"bufio"
-	"bytes"
 	"crypto/sha256"
 	"encoding/binary"
 	"encoding/json"
@@ -22,6 +21,7 @@ import (
 	"testing"
 	"time"
 
+	"github.com/piotrnar/gocoin/lib/btc"
 	"github.com/piotrnar/gocoin/lib/utxo"
 	"pgregory.net/rapid"
 	"verif/env"
@@ -36,6 +36,7 @@ type bigSaveCase struct {
 	Compress bool   `json:"compress_utxo"`
 	Procs    int    `json:"gomaxprocs"`
 	DelaysUs []int  `json:"delays_us"` // per round: time between the start of the save and the aborting commit
+	Undo     bool   `json:"undo"`      // every third round the save is interrupted by an undo of the tip block instead
 }
 
 func init() {
@@ -70,7 +71,7 @@ func bigRec(seed uint64, tag byte, a, b int, height uint32, scriptLen int) *utxo
 	return rec
 }
 
-type bigStats struct{ aborted, completed, filesChecked int }
+type bigStats struct{ aborted, completed, filesChecked, undos int }
 
 func runBigSave(c bigSaveCase) (st bigStats, err error) {
 	old := runtime.GOMAXPROCS(c.Procs)
@@ -87,21 +88,59 @@ func runBigSave(c bigSaveCase) (st bigStats, err error) {
 	}
 	db := node.Ch.Unspent
 	defer node.Close() // before the directory goes away
-	// expected serialisations per height: base set at height 1, three more records per later block
-	want := map[[32]byte][]byte{}
-	upTo := map[uint32]int{} // height -> number of records of the set at that height
-	var order [][32]byte
-	commit := func(h uint32, recs []*utxo.UtxoRec) {
-		for _, r := range recs {
-			b := utxo.Serialize(r, nil)
-			want[r.TxID] = append([]byte{}, (*b)...)
-			order = append(order, r.TxID)
+	// every committed state is remembered by the hash of its block: record count and an order-independent digest
+	// (xor of the SHA-256 of every serialised record) of the set at that block
+	type state struct {
+		count  int
+		digest [32]byte
+		height uint32
+	}
+	states := map[[32]byte]state{}
+	var cur state
+	gen := uint32(0)
+	xor := func(d *[32]byte, ser []byte) {
+		x := sha256.Sum256(ser)
+		for i := range d {
+			d[i] ^= x[i]
 		}
-		var hash [32]byte
-		binary.LittleEndian.PutUint32(hash[:], h)
-		hash[31] = 0xbb
-		db.CommitBlockTxs(&utxo.BlockChanges{Height: h, LastKnownHeight: h, AddList: recs, DeledTxs: map[[32]byte][]bool{}}, hash[:])
-		upTo[h] = len(order)
+	}
+	type blk struct {
+		hash [32]byte
+		ids  [][32]byte
+		sers [][]byte
+	}
+	var chain []blk // blocks above height 0, the last one is the tip
+	commit := func(h uint32, recs []*utxo.UtxoRec) {
+		var b blk
+		for _, r := range recs {
+			ser := append([]byte{}, (*utxo.Serialize(r, nil))...)
+			xor(&cur.digest, ser)
+			b.ids = append(b.ids, r.TxID)
+			b.sers = append(b.sers, ser)
+		}
+		cur.count += len(recs)
+		cur.height = h
+		gen++
+		binary.LittleEndian.PutUint32(b.hash[:], h)
+		binary.LittleEndian.PutUint32(b.hash[4:], gen)
+		b.hash[31] = 0xbb
+		// (UndoData non-nil: an undo file is written - this block spends nothing, so it only holds the block hash)
+		db.CommitBlockTxs(&utxo.BlockChanges{Height: h, LastKnownHeight: h, AddList: recs, DeledTxs: map[[32]byte][]bool{},
+			UndoData: map[[32]byte]*utxo.UtxoRec{}}, b.hash[:])
+		states[b.hash] = cur
+		chain = append(chain, b)
+	}
+	undo := func() {
+		b := chain[len(chain)-1]
+		chain = chain[:len(chain)-1]
+		bl := &btc.Block{Hash: btc.NewUint256(b.hash[:])}
+		for i, id := range b.ids {
+			bl.Txs = append(bl.Txs, &btc.Tx{Hash: btc.Uint256{Hash: id}, TxOut: make([]*btc.TxOut, 3)})
+			xor(&cur.digest, b.sers[i])
+		}
+		cur.count -= len(b.ids)
+		cur.height--
+		db.UndoBlockTxs(bl, chain[len(chain)-1].hash[:])
 	}
 	base := make([]*utxo.UtxoRec, c.Records)
 	for i := range base {
@@ -121,19 +160,19 @@ func runBigSave(c bigSaveCase) (st bigStats, err error) {
 		}
 		height := uint32(binary.LittleEndian.Uint64(hdr[:8]))
 		count := binary.LittleEndian.Uint64(hdr[40:48])
-		n, ok := upTo[height]
+		var hh [32]byte
+		copy(hh[:], hdr[8:40])
+		st0, ok := states[hh]
 		if height == 0 {
-			n, ok = 0, true // the snapshot of the empty set at genesis that the directory started with
-		} else if binary.LittleEndian.Uint32(hdr[8:12]) != height {
-			ok = false
+			st0, ok = state{}, true // the snapshot of the empty set at genesis that the directory started with
 		}
-		if !ok {
+		if !ok || st0.height != height {
 			return fmt.Errorf("%s names height %d / block %x, which was never committed", name, height, hdr[8:16])
 		}
-		if count != uint64(n) {
-			return fmt.Errorf("%s for height %d announces %d records, the set at that height has %d", name, height, count, n)
+		if count != uint64(st0.count) {
+			return fmt.Errorf("%s for height %d announces %d records, the set at that block has %d", name, height, count, st0.count)
 		}
-		seen := 0
+		var dig [32]byte
 		for i := uint64(0); i < count; i++ {
 			l, e := readCompact(rd)
 			if e != nil {
@@ -143,18 +182,14 @@ func runBigSave(c bigSaveCase) (st bigStats, err error) {
 			if _, e := io.ReadFull(rd, buf); e != nil {
 				return fmt.Errorf("%s for height %d: record %d of %d is cut short", name, height, i, count)
 			}
-			var id [32]byte
-			copy(id[:], buf)
-			if w, ok := want[id]; !ok || !bytes.Equal(w, buf) {
-				return fmt.Errorf("%s for height %d: record %d (%x) is not a record of the set", name, height, i, id[:6])
-			}
-			seen++
+			xor(&dig, buf)
 		}
 		if _, e := rd.ReadByte(); e != io.EOF {
 			return fmt.Errorf("%s for height %d has data after its %d records", name, height, count)
 		}
-		// (all distinct: the map check above plus the count; membership in the first n of the order)
-		_ = seen
+		if dig != st0.digest {
+			return fmt.Errorf("%s names block %x (height %d) and holds %d records, but not the records of the set at that block", name, hdr[8:16], height, count)
+		}
 		st.filesChecked++
 		return nil
 	}
@@ -175,25 +210,37 @@ func runBigSave(c bigSaveCase) (st bigStats, err error) {
 		return fmt.Errorf("a snapshot temp file is still there 20 s after the save was aborted / finished")
 	}
 	h := uint32(1)
+	lastSavedHeight := uint32(0) // (after an undo the set may be back at the height of the last snapshot: nothing to save)
 	for round, d := range c.DelaysUs {
-		if !db.Idle() {
-			return st, fmt.Errorf("round %d: Idle() did not start a save although the set is dirty", round)
+		if !db.Idle() && cur.height != lastSavedHeight {
+			return st, fmt.Errorf("round %d: Idle() did not start a save although the set is dirty and at another height than the last snapshot", round)
 		}
+		heightAtIdle := cur.height
 		time.Sleep(time.Duration(d) * time.Microsecond)
 		was := db.WritingInProgress.Get()
-		h++
-		commit(h, []*utxo.UtxoRec{bigRec(c.Seed, 'a', int(h), 0, h, c.ScriptLn), bigRec(c.Seed, 'a', int(h), 1, h, c.ScriptLn), bigRec(c.Seed, 'a', int(h), 2, h, c.ScriptLn)})
+		// what interrupts the save: the next block - or, for every third round, the tip block being disconnected
+		what := "commit"
+		if c.Undo && round%3 == 2 && len(chain) >= 2 {
+			what = "undo of the tip block"
+			undo()
+			h--
+			st.undos++
+		} else {
+			h++
+			commit(h, []*utxo.UtxoRec{bigRec(c.Seed, 'a', int(h), int(gen)*4, h, c.ScriptLn), bigRec(c.Seed, 'a', int(h), int(gen)*4+1, h, c.ScriptLn), bigRec(c.Seed, 'a', int(h), int(gen)*4+2, h, c.ScriptLn)})
+		}
 		if was {
 			st.aborted++
 		} else {
 			st.completed++
+			lastSavedHeight = heightAtIdle
 		}
 		if e := settle(); e != nil {
 			return st, e
 		}
 		for _, name := range []string{"UTXO.db", "UTXO.old"} {
 			if e := check(name); e != nil {
-				return st, fmt.Errorf("round %d (GOMAXPROCS=%d, commit %d us after the save began, save still running: %v): %v", round, c.Procs, d, was, e)
+				return st, fmt.Errorf("round %d (GOMAXPROCS=%d, %s %d us after the save began, save still running: %v): %v", round, c.Procs, what, d, was, e)
 			}
 		}
 	}
@@ -204,6 +251,7 @@ func TestAbortedBigSaves(t *testing.T) {
 	pbt.Check(t, pbt.Cfg{Name: "aborted_big_saves", Quick: 32, Thorough: 320}, func(r *pbt.Run) {
 		c := bigSaveCase{Seed: rapid.Uint64().Draw(r.T, "seed"), Procs: rapid.SampledFrom([]int{1, 1, 2, 4}).Draw(r.T, "procs"),
 			Compress: rapid.IntRange(0, 3).Draw(r.T, "compress") == 0}
+		c.Undo = rapid.Bool().Draw(r.T, "undo")
 		c.ScriptLn = rapid.SampledFrom([]int{200, 300}).Draw(r.T, "scriptlen")
 		c.Records = rapid.SampledFrom([]int{30000, 40000}).Draw(r.T, "records")
 		for i, n := 0, rapid.IntRange(5, 9).Draw(r.T, "rounds"); i < n; i++ {
@@ -218,6 +266,9 @@ func TestAbortedBigSaves(t *testing.T) {
 		}
 		if st.completed > 0 {
 			r.Class("save_finished_before_the_commit")
+		}
+		if st.undos > 0 {
+			r.Class("save_interrupted_by_an_undo")
 		}
 		pbt.AddExtra("big_snapshot_files_checked", int64(st.filesChecked))
 		pbt.AddExtra("big_saves_aborted", int64(st.aborted))
